@@ -906,3 +906,46 @@ Proof.
   split; [exact H1|]. split; [exact H2|]. split; [exact H3|]. split; [|exact HL].
   rewrite shacl_graph_of_doc, H2. reflexivity.
 Qed.
+
+(** *** the computable version of S1 is implied by S1 (for refutations by computation) *)
+Lemma node_objects_declaredb_complete g labels :
+  node_objects_declared g labels -> node_objects_declaredb g labels = true.
+Proof.
+  intros H. unfold node_objects_declaredb. apply forallb_forall. intros [[s p] o] Hin. cbn [tr_pred tr_obj fst snd].
+  destruct (str_eqb p (SH "node")) eqn:E; [|reflexivity]. cbn [negb orb].
+  apply str_eqb_eq in E. subst p. destruct (H s o Hin) as [u [Hu [-> Hns]]].
+  apply andb_true_iff. split; [apply mem_str_In; exact Hu|].
+  apply existsb_exists. exists (TIri u, RDFNS "type", TIri (SH "NodeShape")). split; [exact Hns|].
+  cbn [tr_subj tr_pred tr_obj fst snd]. rewrite !term_eqb_refl, str_eqb_refl. reflexivity.
+Qed.
+
+Lemma one_pathb_sound g b : one_pathb g b = true -> one_path g b.
+Proof.
+  unfold one_pathb, one_path.
+  destruct (objects g b (SH "path")) as [|[p| |] [|]] eqn:E1; destruct (objects g b (SH "property")) as [|n [|]] eqn:E2;
+    try discriminate.
+  - destruct (objects g n (SH "inversePath")) as [|[p| |] [|]] eqn:E3; try discriminate.
+    intros _. right. split; [reflexivity|]. exists n, p. split; [reflexivity | exact E3].
+  - intros _. left. exists p. split; reflexivity.
+Qed.
+
+(** distinct labels, distinct IRIs *)
+Lemma names_iris_NoDup shapes L : names_iris shapes L -> NoDup (map sh_name shapes) -> NoDup (map fst L).
+Proof.
+  intros HL. assert (E : map sh_name shapes = map (fun u => Str "%<" ++ u ++ Str ">") (map fst L)).
+  { induction HL as [|sh uc shapes L [Hn _] _ IH]; [reflexivity|]. cbn [map]. rewrite Hn, IH. reflexivity. }
+  rewrite E. apply NoDup_map_inv.
+Qed.
+
+(** S1-S3 together on C11's domain: the graph exists and is well-formed *)
+Theorem shacl_graph_wellformed ns tau shapes :
+  forallb (C11_dom_shape ns tau) shapes = true -> refs_closed shapes -> NoDup (map sh_name shapes) ->
+  exists g L, shacl_graph ns tau shapes = inl g /\ names_iris shapes L /\
+              node_objects_declared g (map fst L) /\ property_shapes_one_path g /\ node_shapes_exact g L.
+Proof.
+  intros Hdom Hrc Hnd. destruct (shacl_graph_total ns tau shapes Hdom) as [cs [d [L [_ [_ [_ [Hg HL]]]]]]].
+  exists (doc_triples 0 d), L. split; [exact Hg|]. split; [exact HL|].
+  split; [exact (shacl_gen_node_objects_declared _ _ _ _ _ _ Hg HL Hrc)|].
+  split; [exact (shacl_gen_one_path _ _ _ _ _ Hg)|].
+  exact (shacl_gen_node_shapes_exact _ _ _ _ _ _ Hg HL (names_iris_NoDup _ _ HL Hnd)).
+Qed.
